@@ -197,6 +197,19 @@ func runC16(w *World) {
 			return
 		}
 		bat[0] = rp.AllAccess()
+		// an edit that cannot be carried out (rename to a login that has no file name) together with other privileges:
+		// whatever the reply, the account keeps the privileges it had - now and after the restart (checkAll compares
+		// acc0 with accts[0] both times)
+		{
+			var flipped rp.Access
+			for _, b := range rp.DefinedBits {
+				if !accts[0].b.Has(b) {
+					flipped.Set(b)
+				}
+			}
+			admin.UpdateUsers([]UserEdit{{Kind: "rename", Login: "acc0", NewLogin: "no-such-dir/acc0", Name: "Made", Access: flipped, PwMode: PwUnchanged}})
+			w.Probe("failed_rename_with_other_privileges")
+		}
 		checkBat := func(when string) bool {
 			for k, want := range bat {
 				login := fmt.Sprintf("bat%d", k)
